@@ -49,7 +49,21 @@ SpellCases(zzdummy) ==
   IN [i \in DOMAIN ps |-> Case(ps[i].kind, ps[i].len, ps[i].start, ps[i].stop, ps[i].step,
                                ps[i].stepomit, IotaDoc(ps[i].len))]
 
-Cases(zzdummy) == IF IOEnv.MODE = "enum" THEN SetToSeq(EnumCases(0)) ELSE SpellCases(0)
+(* MODE "context": the slice behind another projection, applied to rows of different lengths (each row must get its own
+   window), judged through the evaluation model (e = "eval") *)
+Row(len, base) == JArr([i \in 1..len |-> JInt(base + i - 1)])
+RowsDoc(lens) == JArr([i \in DOMAIN lens |-> Row(lens[i], 100 * i)])
+RowLens == {<<3, 9>>, <<9, 3>>, <<2, 8, 5>>, <<0, 6>>, <<6, 0, 7>>, <<1, 2, 3, 4>>}
+CtxPrefixes == {<<cAT, cLBRACKET, cSTAR, cRBRACKET>>, <<cAT, cLBRACKET, cCOLON, cRBRACKET>>, <<cAT, cLBRACKET, cQMARK, cAT, cRBRACKET>>,
+             <<cAT, cLBRACKET, cCOLON, cCOLON, 45, 49, cRBRACKET>>}
+CtxEnds == {None, Some(0), Some(1), Some(5), Some(-2), Some(6), Some(7)}
+ContextCases(zzdummy) ==
+  LET cells == SetToSeq({<<p, a, b, c, ls>> : p \in CtxPrefixes, a \in CtxEnds, b \in CtxEnds, c \in {1, 2, -1}, ls \in RowLens})
+  IN [x \in DOMAIN cells |-> [e |-> "eval", doc |-> RowsDoc(cells[x][5]),
+                               text |-> cells[x][1] \o <<cLBRACKET>> \o OptText(cells[x][2]) \o <<cCOLON>> \o OptText(cells[x][3])
+                                        \o <<cCOLON>> \o IntText(cells[x][4]) \o <<cRBRACKET>>]]
+
+Cases(zzdummy) == IF IOEnv.MODE = "enum" THEN SetToSeq(EnumCases(0)) ELSE IF IOEnv.MODE = "context" THEN ContextCases(0) ELSE SpellCases(0)
 
 ASSUME ndJsonSerialize(IOEnv.OUT, Cases(0))
 ASSUME PrintT(<<"CASES", Len(Cases(0))>>)
